@@ -55,9 +55,16 @@ Definition table32 (t : table) : Prop :=
     0 <= e_key e <= 4294967295 /\ 0 <= e_mask e <= 4294967295
     /\ Z.land (e_key e) (Z.lnot (e_mask e)) = 0.
 
+(* generality of an entry, stated independently of rig's _get_generality: the number of key bits
+   0..31 that are X, i.e. clear in both the key and the mask (Proofs/TableBits.v, gen_of_spec: the
+   regenerated kernel computes exactly this) *)
+Definition spec_generality (e : entry) : Z :=
+  Z.of_nat (length (filter (fun i => negb (Z.testbit (e_key e) i) && negb (Z.testbit (e_mask e) i))
+                           (map Z.of_nat (seq 0 32)))).
+
 Definition sorted_by_generality (t : table) : Prop :=
   forall i j a b, (i <= j)%nat -> nth_error t i = Some a -> nth_error t j = Some b ->
-                  gen_of a <= gen_of b.
+                  spec_generality a <= spec_generality b.
 
 Definition orthogonal (t : table) : Prop :=
   forall i j a b k, i <> j -> nth_error t i = Some a -> nth_error t j = Some b ->
@@ -65,6 +72,48 @@ Definition orthogonal (t : table) : Prop :=
 
 Definition minimiser_domain (t : table) : Prop :=
   table32 t /\ nonempty_sources t /\ (sorted_by_generality t \/ orthogonal t).
+
+(* What the proofs actually need (minimiser_domain implies it): no bound on the keys, no condition on
+   key bits outside the mask (an entry with such a bit matches nothing, before and after), and 32-bit
+   masks only to make "orthogonal over 32-bit keys" mean "orthogonal". *)
+Definition masks32 (t : table) : Prop := forall e, In e t -> 0 <= e_mask e <= 4294967295.
+Definition minimiser_domain_loose (t : table) : Prop :=
+  nonempty_sources t /\ (sorted_by_generality t \/ (masks32 t /\ orthogonal t)).
+
+(* ------------------------------------------------------------------------------------------------ *)
+(** * Vocabulary of the front-end theorems *)
+
+(* a first step that keeps every matched key matched (ordered covering never drops a key) *)
+Definition route_eq_matched (A B : table) : Prop :=
+  forall k e, key32 k -> lookup A k = Some e -> exists e', lookup B k = Some e' /\ routes_like e e'.
+
+(* What minimise_table needs of a method f on table t: run to the end (no target) it returns a table
+   [full] that routes like t and is not longer; with a target it either returns a table that routes
+   like t, is not longer and meets the target, or fails reporting exactly len full > target. *)
+Definition method_ok (f : table -> option Z -> result table) (t : table) : Prop :=
+  exists full,
+    f t None = Ok full /\ route_eq t full /\ len full <= len t /\
+    forall tl,
+      match f t (Some tl) with
+      | Ok r => route_eq t r /\ len r <= len t /\ len r <= tl
+      | Failed n => n = len full /\ tl < n
+      | OtherError | OutOfFuel => False
+      end.
+
+(* the size a method reaches when run to the end *)
+Definition full_size (f : table -> option Z -> result table) (t : table) : Z :=
+  match f t None with Ok full => len full | _ => len t end.
+
+(* the smallest size reached by the methods, starting from [best] *)
+Fixpoint best_size (ms : list (table -> option Z -> result table)) (t : table) (best : Z) : Z :=
+  match ms with
+  | [] => best
+  | f :: ms' => best_size ms' t (Z.min best (full_size f t))
+  end.
+
+(* the table a result dictionary holds for a chip: absent means empty *)
+Definition table_of (out : list (chip * table)) (c : chip) : table :=
+  match cassoc c out with Some r => r | None => [] end.
 
 (* ------------------------------------------------------------------------------------------------ *)
 (** * The validator: decides route_eq without enumerating keys
